@@ -296,6 +296,35 @@ def main() -> int:
             continue
         add(dp, ("payload", cid, tuple(combo), cfg_i, tuple(canaries)), meta, cfg)
         add(dc, ("control", cid, tuple(combo), cfg_i, tuple(canaries)), meta, cfg)
+    # names of one identifier in several spellings, in different scopes, all referring to one component: every scope keeps its own text
+    sjobs = []
+    for label, d in docs.interplay_docs():
+        if "same_identifier_other_spelling" in label:
+            for cfg_ in ({}, {"literal_enums": True}):
+                sjobs.append(run.job(d, want=["manifest"], cfg=cfg_, plan={"fn": "c05", "args": dict(plan_args, calls_per_op=3)}))
+    for j, res in zip(sjobs, run.map(sjobs, timeout=300)):
+        if res.get("_error") or res.get("exc") or not res.get("accepted"):
+            continue
+        from ..harness import with_followups
+        for a, x in with_followups(actions_results(res)):
+            if x.get("action_exc"):
+                continue
+            w = {"doc": j["doc"], "cfg": j.get("cfg")}
+            if a["a"] == "roundtrip" and not a["x"].get("expect_reject"):
+                ev.count("respelled_name_roundtrips")
+                if x.get("exc"):
+                    vd.violation("exception:property.name:same_identifier_other_spelling", f"{a['cls']}.{x['stage']}: {x['exc']['type']}: {x['exc']['msg'][:120]}", dict(w, value=a["value"]))
+                elif not expect.jeq(x["e"], a["value"]):
+                    vd.violation("value_altered:property.name:same_identifier_other_spelling", f"{a['cls']}: {expect.jdiff(x['e'], a['value'])}", dict(w, value=a["value"]))
+            elif a["a"] == "call":
+                for variant, vr in x.items():
+                    reqs = (vr or {}).get("requests") or []
+                    if len(reqs) != 1:
+                        continue
+                    ev.count("respelled_name_calls")
+                    for eff, det in expect.check_request(reqs[0], a["x"]):
+                        if eff.split(":")[0] in ("missing", "extra"):
+                            vd.violation("value_altered:param.query.name:same_identifier_other_spelling", f"{a['module']}.{variant}: {det}", w)
     rs = run.map(jobs, timeout=300)
     ctl = {}
     for j, res in zip(jobs, rs):
